@@ -406,9 +406,10 @@ Proof.
                     /\ length (k_cookies k) = 8%nat
                     /\ (forall ck0, In ck0 (k_cookies k) -> dec_cookie ck0 = Some (k_algorithm k, k_c2s k, k_s2c k))
                     /\ Closed 0 = Closed 0).
-      { intros v E. inversion E. subst k. cbn. rewrite X. repeat split; try assumption.
-        - rewrite <- CK. apply cookie_bytes_length.
-        - intros ck0 Hin. rewrite <- CK in Hin. apply (cookie_bytes_dec _ _ _ _ _ _ Hin). }
+      { intros v E. inversion E. subst k. cbn [k_protocol k_algorithm k_c2s k_s2c k_cookies]. rewrite X, <- CK.
+        split; [exact Fp|]. split; [exact Fa|]. split; [reflexivity|].
+        split; [apply cookie_bytes_length|]. split; [|reflexivity].
+        intros ck0 Hin. apply (cookie_bytes_dec _ _ _ _ _ _ Hin). }
       destruct (p =? PROTO_NTPV4); [apply (Fin 4 C)|].
       destruct (p =? PROTO_DRAFT_NTPV5); [apply (Fin 5 C)|discriminate].
     + inversion H. subst. exfalso. revert C. unfold client_process.
